@@ -12,13 +12,14 @@ CONSTANTS
   EmptyRaises = FALSE
   Emit = FALSE
   Objs = {1}
-  Rich = FALSE
+  Rich = 0
   SharedMemo = FALSE
   EmitObj = TRUE
 SPECIFICATION OSpec
 INVARIANT OTypeOK
 INVARIANT MemoSound
 INVARIANT NoGhostMemo
-INVARIANT ResSound
+PROPERTY ResSound
+VIEW OView
 INVARIANT PaletteDecided
 CHECK_DEADLOCK FALSE
